@@ -3,6 +3,7 @@ import itertools
 
 from common import coq_options
 import wgslgen as W
+import obs
 
 ID = "C03"
 REQUIRES = ["Agree", "C03Spec", "Truth"]
@@ -78,14 +79,38 @@ def cases(rng, tier):
     return out
 
 
+def run_cases(plain, cases_, workdir, tag):
+    # behavioural level: 40 modules (every 20th case) are compiled against the recording shim
+    pick = {id(c) for c in cases_[::max(1, len(cases_) // 40)][:40]}
+    return obs.attach(plain, cases_, workdir, tag, lambda c: id(c) in pick, 40 if "search" not in tag else 0)
+
+
+def _obs(c, r):
+    if "obs" not in r or r.get("result") != "ok":
+        return "true"
+    if not obs.usable(r):
+        c["note"] = "module did not build / run on the shim: %s" % str(r.get("obs"))[:300]
+        return "false"
+    ok, why = obs.check_c03(c["truth_vis"], c.get("truth_pc"), r)
+    c["note"] = why
+    return "true" if ok else "false"
+
+
+def verdict_expr_noout(c, r, ir):
+    # the output is not recognised by the extractor any more: decide (b) by what the compiled module hands to the device
+    if "obs" not in r:
+        return None
+    return "[true; false; %s]" % _obs(c, r)
+
+
 def verdict_expr(c, r, ir, real):
     tv = "[" + "; ".join("(%d%%N, %d%%N, %s)" % (g, b, stages_term(ss)) for g, b, ss in c["truth_vis"]) + "]"
     gt = "truth_vis_ok %s %s" % (ir, tv)
     if c.get("truth_pc") is not None:
         gt += " && truth_pc_ok %s %s" % (ir, stages_term(c["truth_pc"]))
     return ('[wf %s && %s; agree_res agree_C03 (gen %s ""%%string None %s) %s; '
-            'match %s with Ok o => C03_ok %s o | _ => true end]'
-            % (ir, gt, ir, coq_options(c["opts"]), real, real, ir))
+            'match %s with Ok o => C03_ok %s o | _ => true end && %s]'
+            % (ir, gt, ir, coq_options(c["opts"]), real, real, ir, _obs(c, r)))
 
 
 def nontrivial(c, r):
